@@ -219,29 +219,53 @@ pub struct Config {
     /// texts of object j (clone j of the base workbook, edited after cloning)
     pub texts: Vec<Vec<&'static str>>,
     pub bound: Option<u32>,
+    /// the workbooks are opened lazily from a two-sheet file and keep their second sheet unloaded (raw)
+    pub lazy: bool,
 }
 
 pub fn configs(tier: Tier) -> Vec<Config> {
-    let three = true; // both tiers use 3 text cells per book in the 2-saver configurations
+    let three = tier == Tier::Thorough; // 3 text cells per book in the thorough tier, 2 in the quick tier
     let thorough = tier == Tier::Thorough;
     let t = |a: &[&'static str]| -> Vec<&'static str> { a.to_vec() };
     let mut v = vec![
-        Config { name: "2-savers-same-object", objects: vec![0, 0], texts: vec![if three { t(&["alpha", "beta", "gamma"]) } else { t(&["alpha", "beta"]) }], bound: None },
-        Config { name: "2-clones-equal-sets", objects: vec![0, 1], texts: vec![if three { t(&["alpha", "beta", "gamma"]) } else { t(&["alpha", "beta"]) }; 2], bound: None },
-        Config { name: "2-clones-disjoint-sets", objects: vec![0, 1], texts: if three { vec![t(&["a1", "a2", "a3"]), t(&["b1", "b2", "b3"])] } else { vec![t(&["a1", "a2"]), t(&["b1", "b2"])] }, bound: None },
-        Config { name: "2-clones-overlapping-sets", objects: vec![0, 1], texts: if three { vec![t(&["onlyA", "common", "alsoA"]), t(&["common", "onlyB", "alsoB"])] } else { vec![t(&["onlyA", "common"]), t(&["common", "onlyB"])] }, bound: None },
-        Config { name: "3-savers-shared+clone-overlapping", objects: vec![0, 0, 1], texts: vec![t(&["onlyA", "common"]), t(&["common", "onlyB"])], bound: Some(if thorough { 3 } else { 2 }) },
-        Config { name: "3-clones-disjoint", objects: vec![0, 1, 2], texts: vec![t(&["a1", "a2"]), t(&["b1", "b2"]), t(&["c1", "c2"])], bound: Some(if thorough { 3 } else { 2 }) },
+        Config { name: "2-savers-same-object", objects: vec![0, 0], texts: vec![if three { t(&["alpha", "beta", "gamma"]) } else { t(&["alpha", "beta"]) }], bound: None, lazy: false },
+        Config { name: "2-clones-equal-sets", objects: vec![0, 1], texts: vec![if three { t(&["alpha", "beta", "gamma"]) } else { t(&["alpha", "beta"]) }; 2], bound: None, lazy: false },
+        Config { name: "2-clones-disjoint-sets", objects: vec![0, 1], texts: if three { vec![t(&["a1", "a2", "a3"]), t(&["b1", "b2", "b3"])] } else { vec![t(&["a1", "a2"]), t(&["b1", "b2"])] }, bound: None, lazy: false },
+        Config { name: "2-clones-overlapping-sets", objects: vec![0, 1], texts: if three { vec![t(&["onlyA", "common", "alsoA"]), t(&["common", "onlyB", "alsoB"])] } else { vec![t(&["onlyA", "common"]), t(&["common", "onlyB"])] }, bound: None, lazy: false },
+        Config { name: "3-savers-shared+clone-overlapping", objects: vec![0, 0, 1], texts: vec![t(&["onlyA", "common"]), t(&["common", "onlyB"])], bound: Some(if thorough { 3 } else { 2 }), lazy: false },
+        Config { name: "3-clones-disjoint", objects: vec![0, 1, 2], texts: vec![t(&["a1", "a2"]), t(&["b1", "b2"]), t(&["c1", "c2"])], bound: Some(if thorough { 3 } else { 2 }), lazy: false },
     ];
+    // lazily opened workbooks with an unloaded sheet: the save path that must keep raw string indexes valid
+    v.push(Config { name: "2-lazy-clones-disjoint-sets", objects: vec![0, 1], texts: vec![t(&["a1", "a2"]), t(&["b1", "b2"])], bound: None, lazy: true });
+    v.push(Config { name: "2-lazy-savers-same-object", objects: vec![0, 0], texts: vec![t(&["alpha", "beta"])], bound: None, lazy: true });
+    v.push(Config { name: "3-lazy-shared+clone-overlapping", objects: vec![0, 0, 1], texts: vec![t(&["onlyA", "common"]), t(&["common", "onlyB"])], bound: Some(if thorough { 3 } else { 2 }), lazy: true });
     if thorough {
-        v.push(Config { name: "3-clones-overlapping", objects: vec![0, 1, 2], texts: vec![t(&["x", "common"]), t(&["common", "y"]), t(&["z", "common"])], bound: Some(3) });
+        v.push(Config { name: "3-clones-overlapping", objects: vec![0, 1, 2], texts: vec![t(&["x", "common"]), t(&["common", "y"]), t(&["z", "common"])], bound: Some(3), lazy: false });
     }
     v
 }
 
 /// Every execution builds its workbooks from scratch (a save mutates the shared table).
+fn lazy_file_bytes() -> Vec<u8> {
+    let mut b = new_file();
+    b.get_sheet_mut(&0).unwrap().get_cell_mut("D1").set_value_number(42);
+    b.get_sheet_mut(&0).unwrap().get_cell_mut("E1").set_value_string("loaded-before");
+    b.new_sheet("RawSheet").unwrap();
+    b.get_sheet_mut(&1).unwrap().get_cell_mut("A1").set_value_string("raw sheet text");
+    b.get_sheet_mut(&1).unwrap().get_cell_mut("A2").set_value_string("second raw text");
+    b.get_sheet_mut(&1).unwrap().get_cell_mut("B1").set_value_number(7);
+    save_bytes(&b, false).expect("lazy fixture")
+}
+
 fn build_books(cfg: &Config) -> Vec<Arc<Spreadsheet>> {
-    let mut base = new_file();
+    let mut base = if cfg.lazy {
+        // opened lazily; only the first sheet is materialised (and edited below), the second stays raw
+        let mut b = load_bytes(&lazy_file_bytes(), false).expect("lazy load");
+        b.read_sheet(0);
+        b
+    } else {
+        new_file()
+    };
     base.get_sheet_mut(&0).unwrap().get_cell_mut("D1").set_value_number(42);
     let nobj = cfg.texts.len();
     let mut objs: Vec<Spreadsheet> = vec![];
@@ -269,6 +293,9 @@ fn build_books(cfg: &Config) -> Vec<Arc<Spreadsheet>> {
 fn expected_cells(cfg: &Config, saver: usize) -> Vec<(String, String)> {
     let mut v: Vec<(String, String)> = cfg.texts[cfg.objects[saver]].iter().enumerate().map(|(i, t)| (format!("A{}", i + 1), t.to_string())).collect();
     v.push(("D1".into(), "42".into()));
+    if cfg.lazy {
+        v.push(("E1".into(), "loaded-before".into()));
+    }
     v
 }
 
@@ -299,6 +326,20 @@ fn check_exec(cfg: &Config, ex: &Exec, out: &mut Vec<(String, String, String)>) 
                     let n = ws.get_cell_collection().iter().filter(|c| !is_blank_cell(c)).count();
                     if n != expected_cells(cfg, k).len() {
                         out.push(("content-equals-solo-save".into(), "cell-count-differs".into(), format!("saver {}: {} non-blank cells, expected {}", k, n, expected_cells(cfg, k).len())));
+                    }
+                    if cfg.lazy {
+                        // the untouched raw sheet must still show its own strings
+                        match b2.get_sheet(&1) {
+                            Some(rs) => {
+                                for (addr, want) in [("A1", "raw sheet text"), ("A2", "second raw text"), ("B1", "7")] {
+                                    let got = rs.get_value(addr);
+                                    if got != want {
+                                        out.push(("content-equals-solo-save".into(), "raw-sheet-cell-wrong".into(), format!("saver {} raw sheet cell {}: expected {:?}, file shows {:?}", k, addr, want, got)));
+                                    }
+                                }
+                            }
+                            None => out.push(("content-equals-solo-save".into(), "raw-sheet-missing".into(), format!("saver {}: second sheet missing", k))),
+                        }
                     }
                     // outcome signature: order of the dumped shared strings
                     outcome.push_str(&shared_strings_signature(bytes));
@@ -626,7 +667,7 @@ fn run(ctx: &Ctx) -> i32 {
             level: "model_checking",
             rule: "stateless exploration of thread interleavings of real concurrent write_writer calls under a cooperative scheduler: scheduling points = every shared-string-table lock operation (hook before each) + make_buffer entry/exit + thread start; 2-saver configurations are explored COMPLETELY (all interleavings), 3-saver configurations up to the stated preemption bound; every execution rebuilds its workbooks; each saver's output is reloaded and must show exactly its own workbook's cells. states = distinct (per-saver progress vector, running saver, parked sites) scheduler states + distinct outcomes; transitions = scheduling steps; traces_validated_against_impl = every step runs the real code".into(),
             alphabets: json!({"configurations": cfgs.iter().map(|c| json!({"name": c.name, "savers": c.objects, "texts": c.texts, "preemption_bound": c.bound})).collect::<Vec<_>>(), "lock_sites_found_and_hooked": sites}),
-            bounds: json!({"savers": "2 (complete) and 3 (preemption-bounded)", "text_cells_per_book": "3 (2-saver configurations), 2 (3-saver configurations)", "split_prefix_length": SPLIT, "entry_exit_points": if ctx.tier == Tier::Thorough {"scheduling points"} else {"not scheduling points in the quick tier (sound reduction: no shared-state operation between them and the neighbouring lock site)"}}),
+            bounds: json!({"savers": "2 (complete) and 3 (preemption-bounded)", "text_cells_per_book": if ctx.tier == Tier::Thorough {"3 (2-saver configurations), 2 (3-saver and lazy configurations)"} else {"2"}, "split_prefix_length": SPLIT, "entry_exit_points": if ctx.tier == Tier::Thorough {"scheduling points"} else {"not scheduling points in the quick tier (sound reduction: no shared-state operation between them and the neighbouring lock site)"}}),
             exhaustive: true,
             caps_hit: vec![],
             assumptions: vec!["between two scheduling points a saver touches shared state only inside one lock-protected critical section (no unsafe, the table is reachable only through the lock), so every real execution is equivalent to an enumerated point-level interleaving".into(), "memory-ordering effects below the lock granularity are not modelled (std RwLock gives sequential consistency for the protected data)".into()],
